@@ -215,6 +215,16 @@ def _run(ix, R):
         ta = atom_of(fl, s.target)
         win = ta.args[1]
         ss = calls(fl, 'searchsorted')
+        # np.searchsorted(a=.., v=.., side=..) is np.searchsorted(.., .., side=..)
+        import types as _types
+
+        def _pos(e_):
+            a_, kd_ = list(e_.args), dict(e_.kw or {})
+            for nm_ in ('a', 'v')[len(a_):]:
+                if nm_ in kd_ and len(a_) == ('a', 'v').index(nm_):
+                    a_.append(kd_.pop(nm_))
+            return _types.SimpleNamespace(args=a_, kw=kd_, guards=e_.guards, loops=e_.loops, node=e_.node)
+        ss = [_pos(e_) if getattr(e_, 'recv_rf', None) is None else e_ for e_ in ss]
         why = []
         if len(ss) != 2:
             why.append('%d searchsorted calls' % len(ss))
